@@ -377,6 +377,10 @@ def end_to_end(res, v, k):
     m.pid.pid_5.xpn_2.value = ST('q')
     m.pid.pid_3.cx_4.hd_2.value = ST('q')
     m.pid.pid_23.value = ST('q')
+    # the explicit set is the dictionary read from the message; another live message with the default set is read in
+    # between (the dictionary belongs to the caller once returned)
+    held = m.encoding_chars
+    other = Message('ADT_A01', version=v)
     # leaf at component level (xpn_2 is ST) and at subcomponent level (cx_4.hd_1 / hd_2 is ST)
     cnt = 0
     for x in strings(sym, 3):
@@ -397,7 +401,8 @@ def end_to_end(res, v, k):
             target = {'comp': lambda e: e.pid_5.xpn_2, 'sub': lambda e: e.pid_3.cx_4.hd_2, 'field': lambda e: e.pid_23}[where]
             target(solo).value = ST(x)
             try:
-                solo_out = solo.to_er7(dict(ec))
+                other.encoding_chars
+                solo_out = solo.to_er7(held)
             except Exception as e:
                 solo_out = '!%s' % exc_class(e)
             target(solo).value = ST('q')
